@@ -355,6 +355,35 @@ Theorem C03_restart_keeps_last_set : forall t c0 w0 ops,
 Proof. exact restart_keeps_last_set. Qed.
 Print Assumptions C03_restart_keeps_last_set.
 
+(** The start-up default rule (initDefaultSettings; upstream's documented
+    default for blocked_hosts), for every history: when the blocked-hosts
+    list accepted last is empty, the server that comes up runs with the
+    client lists accepted last and version.bind, id.server, hostname.bind as
+    blocked hosts, access/list reports exactly that, the file is untouched,
+    and every client is decided as by the server that went down. *)
+Theorem C03_restart_empty_blocked_hosts_defaults : forall t c0 w0 ops,
+  boot c0 = Some w0 ->
+  let w := fst (prun t w0 ops) in
+  let l := in_force (init_default_settings c0) ops in
+  ls_hosts l = [] ->
+  exists w1,
+    restart w = Some w1 /\
+    sv_conf (w_srv w1) = mkLists (ls_allowed l) (ls_blocked l) default_blocked_hosts /\
+    handle_access_list w1 =
+      (allowed_texts l, blocked_texts l, [version_bind; id_server; hostname_bind]) /\
+    w_disk w1 = w_disk w /\
+    (forall ip id, is_blocked_client (sv_access (w_srv w1)) ip id =
+                   is_blocked_client (sv_access (w_srv w)) ip id).
+Proof. exact restart_empty_blocked_hosts_defaults. Qed.
+Print Assumptions C03_restart_empty_blocked_hosts_defaults.
+
+(** The two client lists have no such rule: a start never changes them. *)
+Theorem C03_start_keeps_client_lists : forall l,
+  ls_allowed (init_default_settings l) = ls_allowed l /\
+  ls_blocked (init_default_settings l) = ls_blocked l.
+Proof. exact init_default_sides. Qed.
+Print Assumptions C03_start_keeps_client_lists.
+
 Theorem C03_set_then_restart : forall w l w',
   handle_access_set w (Some l) = (w', SetOK) -> ls_hosts l <> [] -> restart w' = Some w'.
 Proof. exact set_then_restart. Qed.
@@ -412,10 +441,10 @@ Example C03_rejected_requests :
          (Some (mkLists [] [mkCStr [] POther] []))) = ErrBadBlocked.
 Proof. exact rejected_requests. Qed.
 
-(** The unchanged code with an emptied blocked-hosts list: the running
-    server answers a query for version.bind, the one that comes up after a
-    restart refuses it (initDefaultSettings), and access/list shows the three
-    default names again. *)
+(** Witness for the default rule: with an emptied blocked-hosts list the
+    running server answers a query for version.bind, the one that comes up
+    after a restart refuses it, and access/list shows the three default
+    names again. *)
 Example C03_restart_empty_hosts_gets_defaults :
   exists w0 w w1,
     boot ex_c0 = Some w0 /\
